@@ -246,14 +246,22 @@ func c15Lists(c *core.Ctx, r *rng.R) *core.Result {
 				break
 			}
 			c15CheckLists(res, b, reqs, "saved", note())
+			respelt := ""
+			if r.Chance(1, 3) {
+				// another producer loaded and saved the file in between: the numbering part comes back in another legal spelling
+				var feats []string
+				b, feats = gen.RespellPackage(r, b, "word/numbering.xml", "word/styles.xml")
+				respelt = strings.Join(feats, ",")
+				res.Count("reopens_of_a_respelt_package", 1)
+			}
 			d2, oerr := document.OpenFromMemory(io.NopCloser(bytes.NewReader(b)))
 			if oerr != nil || d2 == nil || d2.Body == nil {
-				res.Add("lists/reopen-failed", fmt.Sprintf("own output cannot be reopened: %v", oerr), note())
+				res.Add("lists/reopen-failed", fmt.Sprintf("own output cannot be reopened: %v (%s)", oerr, respelt), note())
 				break
 			}
 			d = d2
 			cycles++
-			log = append(log, "save+open")
+			log = append(log, "save+open("+respelt+")")
 		}
 	}
 	if len(res.Findings) == 0 {
@@ -516,13 +524,22 @@ func c15Notes(c *core.Ctx, r *rng.R) *core.Result {
 			if err != nil {
 				break
 			}
+			// in between another producer may have loaded and saved the file, writing the notes and numbering parts in its own
+			// (legal) spelling
+			respelt := ""
+			if r.Chance(1, 3) {
+				var feats []string
+				b, feats = gen.RespellPackage(r, b, "word/footnotes.xml", "word/endnotes.xml", "word/numbering.xml")
+				respelt = strings.Join(feats, ",")
+				res.Count("reopens_of_a_respelt_package", 1)
+			}
 			d2, oerr := document.OpenFromMemory(io.NopCloser(bytes.NewReader(b)))
 			if oerr != nil || d2 == nil || d2.Body == nil {
-				res.Add("notes/reopen-failed", fmt.Sprintf("own output cannot be reopened: %v", oerr), note())
+				res.Add("notes/reopen-failed", fmt.Sprintf("own output cannot be reopened: %v (%s)", oerr, respelt), note())
 				break
 			}
 			nd.d = d2
-			log = append(log, fmt.Sprintf("save+open@%d", di))
+			log = append(log, fmt.Sprintf("save+open(%s)@%d", respelt, di))
 			c15CheckNotes(res, nd, tokens, st+"/reopened", note())
 		}
 	}
